@@ -100,6 +100,8 @@ def run_parser_property(prop, evals=None, N=None, filt=None, level_text='', job=
         ec[k] = v.get('cov'); extra_viol += v.get('viol', []); extra_inc += v.get('inconclusive', [])
     return finish(prop, results, N, t, sd, t0, extra_cov=ec or None, extra_viol=extra_viol, extra_inc=extra_inc)
 
+KNOWN_NONCOMPILING = ('cannot find value `start`', '`return;` in a function whose return type')
+
 def finish(prop, results, N, t, sd, t0, extra_cov=None, extra_viol=(), extra_inc=()):
     known = load_known()
     viol = []; inconclusive = []; mism = []
@@ -108,6 +110,12 @@ def finish(prop, results, N, t, sd, t0, extra_cov=None, extra_viol=(), extra_inc
     for r in results:
         inconclusive += r['inconclusive']; mism += r['mismatches']
         for v in r['violations']: viol.append(v)
+        # a grammar llw accepts but whose emitted parser does not compile cannot be explored.  Two such shapes exist on the
+        # unchanged tree (C11, not claimed: whole-rule creation in a non-elided rule, return behind a commit inside an
+        # alternative); any OTHER compile failure is new and must not pass silently
+        rs = r.get('reason') or ''
+        if rs.startswith('compile-fail') and not any(k in rs for k in KNOWN_NONCOMPILING):
+            inconclusive.append(f"{r['name']}: accepted by llw but the emitted parser does not compile: {rs[:200]}")
     reported = 0; known_hits = {}; unconfirmed = 0
     seen = set()
     for v in viol:
@@ -245,7 +253,7 @@ def main(argv):
     if prop == 'C15':
         def gsel(t, sd):
             gs = select('C15', t, sd)
-            gs = [g for g in gs if g.meta.get('family') != 'near_miss']
+            gs = [g for g in gs if g.meta.get('family') not in ('near_miss', 'pairs', 'zero-progress') and not g.name.endswith('_sym')]
             if t == 'quick':      # every third coverage grammar + all curated/random
                 cov = [g for g in gs if g.meta.get('family') == 'coverage']
                 gs = [g for g in gs if g.meta.get('family') != 'coverage'] + cov[sd % 3::3]
